@@ -111,6 +111,41 @@ def check_spec(spec: NetSpec, label, st: Stats, plan):
                                      f"{sym} compact={compact} more_out={more_out} symbolic={symbolic}: next {slot[2]}[{slot[3]}] "
                                      f"of {slot[1]} = {x!r}, NumPy gives {e!r} at {vlabel}",
                                      dict(case, val={f"{k[0]}.{k[1]}": v for k, v in val.items()})))
+    # the caller supplies its own symbols for only PART of the variables (partial init_conditions): same function values
+    if plan.get("supply"):
+        from ..harness import Compiled, cs_compile, supply_modes
+        base = list(valgen.vectors(spec, 0))
+        ref = [np_step(spec, v, P)[0] for _, v in base]
+        for mlabel, supply in supply_modes(spec):
+            for sym in plan["supply"]:
+                st.inc("transitions", 2)
+                st.inc("partial_condition_compilations")
+                case = {"spec": spec.describe(), "config": label, "P": P, "sym": sym, "supplied": sorted(f"{k}.{v}" for k, v in supply)}
+                try:
+                    F, built, eng = cs_compile(spec, sym, P, compact=0, supply=supply)
+                    outs = Compiled(F, built).eval_many([v for _, v in base])
+                except Exception as e:  # noqa: BLE001
+                    problems.append((f"C03/exception/{exc_site(e)}/{type(e).__name__}", f"{sym}, initial conditions {mlabel}: "
+                                     f"{exc_text(e)}", case))
+                    continue
+                st.inc("executions", len(base))
+                for (vlabel, val), o, r in zip(base, outs, ref):
+                    bad = None
+                    for (key, var), lst in r.items():
+                        got = o.get((key, var))
+                        if got is None or len(got) != len(lst):
+                            bad = f"no result for next {var} of {key}"
+                            break
+                        for j, (x, e) in enumerate(zip(got, lst)):
+                            st.inc("components_compared")
+                            if not (close(float(x), e) or (x != x and e != e)):
+                                bad = f"next {var}[{j}] of {key} = {float(x)!r}, NumPy gives {e!r}"
+                                break
+                        if bad:
+                            break
+                    if bad:
+                        problems.append((f"C03/partial-conditions/{sym}", f"{sym}, initial conditions {mlabel}: {bad} at {vlabel}", case))
+                        break
     return problems
 
 
@@ -135,8 +170,13 @@ def plans(tier, seed):
     if tier == "quick":
         jobs = [({"pset": 0, "d": 1, "variants": variants("quick")}, [(lab, s) for _, lab, s in all_specs(3, 3, 0, pal)]
                  + [(f"harness:{k}", s) for k, s in harness_specs(pal).items()]),
-                ({"pset": 0, "d": 1, "variants": light}, [(lab, s) for _, lab, s in all_specs(3, 3, 1, pal)])]
+                ({"pset": 0, "d": 1, "variants": light}, [(lab, s) for _, lab, s in all_specs(3, 3, 1, pal)]),
+                ({"pset": 0, "d": -1, "variants": [], "supply": ["SX"]}, [(lab, s) for _, lab, s in all_specs(3, 3, 0, pal)
+                                                                          if lab in ("base", "mixed", "all-vsl", "all-main/ramp_in")]
+                 + [(f"harness:{k}", s) for k, s in harness_specs(pal).items()])]
         bounds = {"shapes": "(n,m)<=(3,3): base+uniform configurations with 11 variants, c<=1 with 3 variants",
+                  "partial_conditions": "(n,m)<=(3,3) base / mixed / all-vsl / all-main+ramp_in configurations + harness on SX: "
+                                        "nothing supplied, every element omitted / alone, every variable omitted",
                   "value_deviation": 1, "palette": pal}
     else:
         a0 = [(lab, s) for _, lab, s in all_specs(3, 4, 0, pal)]
@@ -146,7 +186,8 @@ def plans(tier, seed):
         jobs = [({"pset": 0, "d": 1, "variants": variants("thorough")}, a0 + h),
                 ({"pset": 0, "d": 1, "variants": variants("quick")}, a),
                 ({"pset": 2, "d": 1, "variants": light}, b),
-                ({"pset": 1, "d": 0, "variants": variants("thorough")}, a)]
+                ({"pset": 1, "d": 0, "variants": variants("thorough")}, a),
+                ({"pset": 0, "d": -1, "variants": [], "supply": ["SX", "MX"]}, a0 + h)]
         bounds = {"shapes": "(3,4) base+uniform + harness with all 24 variants (d<=1); (3,4) c<=1 with 11 variants (d<=1) and all "
                             "24 variants on the base vectors; 4-node shapes (4,4) base+uniform with 3 variants",
                   "value_deviation": 1, "palette": pal}
@@ -174,7 +215,8 @@ def replay(case):
     spec = NetSpec.from_json(case["spec"])
     st = Stats()
     plan = {"pset": MODEL_PARAMS.index(case["P"]) if case["P"] in MODEL_PARAMS else 0, "d": 1,
-            "variants": [(case["sym"], case["compact"], case["more_out"], case["symbolic"])] if "sym" in case else variants("quick")}
+            "variants": [(case["sym"], case["compact"], case["more_out"], case["symbolic"])] if "compact" in case else
+            ([] if "supplied" in case else variants("quick")), "supply": [case["sym"]] if "supplied" in case else None}
     problems = check_spec(spec, case.get("config", "?"), st, plan)
     lines = [f"network {spec.short()}"] + [f"  {sig}: {msg}" for sig, msg, c in problems[:20]]
     return lines, bool(problems)
